@@ -190,6 +190,18 @@ type gsTransition struct {
 	x          *Exec
 	obsDump    func() ([]innovRec, int64, int)
 	caseParams *c04Case
+	chain      *chainInfo // set when the transition is a step of a live chain (replayed as a whole)
+}
+
+// chainInfo identifies a live chain: the start genome, the operators applied so far to ONE live
+// object (no rebuild in between) and the innovation record at the start of the chain.
+type chainInfo struct {
+	Start  *GenomeSpec
+	Ops    []string
+	Regime string
+	Recs   []innovRec
+	NextI  int64
+	NextN  int
 }
 
 type gsConfig struct {
@@ -352,6 +364,19 @@ func (gs *GenomeSpace) violate(t *gsTransition, clause, msg string) {
 }
 
 func gsViolate(c *Ctx, prop string, t *gsTransition, clause, msg string) {
+	if t.chain != nil {
+		ch := t.chain
+		js, _ := json.Marshal(ch.Start)
+		rj, _ := json.Marshal(ch.Recs)
+		params := map[string]interface{}{"ops": strings.Join(ch.Ops, ","), "regime": ch.Regime, "state": json.RawMessage(js),
+			"record": json.RawMessage(rj), "next_innov": ch.NextI, "next_node": ch.NextN, "policy": t.x.policy.String()}
+		trace := fmt.Sprintf("operators %s applied in sequence to ONE genome object starting from %s; before the last step: %s; after: %s",
+			strings.Join(ch.Ops, " -> "), ch.Start.Short(), t.Before.Short(), t.After.Short())
+		rp := &Replay{Scenario: "operator-chain", Params: params, Answers: t.x.Answers(), Clause: msg, Trace: trace}
+		ord := int64(len(ch.Ops)*100000 + len(ch.Start.Genes)*1000 + len(t.x.Points))
+		c.ViolateOrd(prop+"/"+t.Op+"/"+clause, ord, fmt.Sprintf("[%s as step %d of a sequence on one object, on %s] %s", t.Op, len(ch.Ops), t.Before.Short(), msg), rp)
+		return
+	}
 	params := map[string]interface{}{"op": t.Op, "fit_order": t.FitOrder, "regime": t.Regime}
 	js, _ := json.Marshal(t.Before)
 	params["state"] = json.RawMessage(js)
@@ -498,9 +523,158 @@ func (gs *GenomeSpace) finish(unexpanded int) {
 	}
 }
 
+// ---------------------------------------------------------------------------
+// live chains: operator sequences on ONE live object
+//
+// The breadth-first search rebuilds a state from its pointer-free snapshot before every operator, so
+// anything an operator leaves behind inside the object (the id index, cached phenotype, scratch
+// state) is lost between two steps. The chains close that gap: every sequence of up to L unary
+// operators is applied to one live genome object - "duplicate" switches to the copy - under every
+// choice sequence within the bound over the WHOLE chain, and the per-transition oracle runs on every
+// step with the snapshot taken just before it.
+
+var chainOps = []string{"addNode", "reEnable", "toggleEnable", "addLink", "connectSensors", "duplicate", "linkWeights", "nodeTrait", "linkTrait", "randomTrait"}
+
+func runChain(start *GenomeSpec, ops []string, regime string, obs *searchObserver, opts *neat.Options, x *Exec, oracle func(t *gsTransition), cnt map[string]int64) {
+	ch := &chainInfo{Start: start, Regime: regime, Recs: obs.dump(), NextI: obs.nextInnov, NextN: obs.nextNode}
+	g := start.Build()
+	for i, op := range ops {
+		before := SpecOf(g)
+		if op == "addLink" {
+			// add-link works on the cached phenotype and the library only ever calls it on a genome whose
+			// phenotype is absent or current (a fresh duplicate / crossover child); a chain must not
+			// hand it a phenotype that an earlier step of the chain made stale
+			g.Phenotype = nil
+		}
+		res, ok, err := applyOp(op, g, nil, obs, opts, 1)
+		st := *ch
+		st.Ops = ops[:i+1]
+		t := &gsTransition{Op: op, FitOrder: 1, Before: before, Regime: regime, x: x, G: g, Result: res, OK: ok, Err: err, chain: &st}
+		t.After = SpecOf(g)
+		if res != nil && res != g {
+			t.OrigPost = t.After
+			t.After = SpecOf(res)
+		}
+		if cnt != nil {
+			cnt["chain_steps"]++
+			if ok && i > 0 {
+				cnt["chain_successful_later_steps"]++
+			}
+		}
+		if oracle != nil {
+			oracle(t)
+		}
+		if err != nil || res == nil {
+			return
+		}
+		g = res
+	}
+}
+
+// LiveChains enumerates all operator sequences of length 2..L on the start genomes of the family.
+func (gs *GenomeSpace) LiveChains(L, dev int, policies []string) {
+	var seqs [][]string
+	var rec func(cur []string)
+	rec = func(cur []string) {
+		if len(cur) >= 2 {
+			seqs = append(seqs, append([]string(nil), cur...))
+		}
+		if len(cur) == L {
+			return
+		}
+		for _, op := range chainOps {
+			rec(append(cur, op))
+		}
+	}
+	rec(nil)
+	var chains, execs int64
+	cnt := map[string]int64{}
+	defer func() {
+		gs.c.Count("live_chains", chains)
+		gs.c.Count("live_chain_executions", execs)
+		for k, v := range cnt {
+			gs.c.Count(k, v)
+		}
+	}()
+	for _, start := range gs.cfg.Seeds {
+		for _, ops := range seqs {
+			for _, regime := range []string{"shared", "fresh"} {
+				for _, pn := range policies {
+					if gs.c.Expired() {
+						gs.c.MarkCapped("live chains: internal deadline reached before every operator sequence was explored")
+						return
+					}
+					ex := &Explorer{Policy: parsePolicy(pn), MaxDev: dev, Horizon: 2000, Stop: gs.c.Expired}
+					ops, regime := ops, regime
+					mark := len(gs.obs.inns)
+					markI, markN := gs.obs.nextInnov, gs.obs.nextNode
+					ex.Body = func(x *Exec) {
+						// every execution of the chain starts from the same record
+						gs.obs.inns = gs.obs.inns[:mark]
+						gs.obs.nextInnov, gs.obs.nextNode = markI, markN
+						obs := gs.obs
+						if regime == "fresh" {
+							obs = gs.obs.fresh()
+						}
+						runChain(start, ops, regime, obs, gs.opts, x, gs.cfg.Oracle, cnt)
+						gs.c.Transitions += int64(len(ops))
+					}
+					ex.OnPanic = func(x *Exec, r interface{}, stack string) {
+						st := &chainInfo{Start: start, Ops: ops, Regime: regime, Recs: gs.obs.dump()[:mark], NextI: markI, NextN: markN}
+						if regime == "fresh" {
+							st.Recs, st.NextI, st.NextN = nil, markI+1000, markN+1000
+						}
+						t := &gsTransition{Op: ops[len(ops)-1], Before: start, After: start, Regime: regime, x: x, chain: st}
+						gs.violate(t, "panic", fmt.Sprintf("operator sequence %v on one object panicked: %v", ops, r))
+					}
+					ex.Run()
+					gs.obs.inns = gs.obs.inns[:mark]
+					gs.obs.nextInnov, gs.obs.nextNode = markI, markN
+					chains++
+					execs += ex.Executions
+					gs.c.Evaluations += ex.Executions
+					gs.c.Traces += ex.Executions
+				}
+			}
+		}
+	}
+}
+
+// replayChain re-executes a recorded live chain and applies the oracle to every step.
+func replayChain(c *Ctx, rp *Replay, orc func(t *gsTransition)) (bool, string) {
+	var st GenomeSpec
+	raw := func(k string) []byte { b, _ := json.Marshal(rp.Params[k]); return b }
+	if err := json.Unmarshal(raw("state"), &st); err != nil {
+		return false, "cannot parse state: " + err.Error()
+	}
+	var recs []innovRec
+	_ = json.Unmarshal(raw("record"), &recs)
+	ops := strings.Split(paramStr(rp, "ops"), ",")
+	regime := paramStr(rp, "regime")
+	ex := &Explorer{Policy: parsePolicy(paramStr(rp, "policy")), Horizon: 5000}
+	var pan interface{}
+	ex.Body = func(x *Exec) {
+		// (for the "fresh" regime the recorded record is empty and the counters are the fresh observer's)
+		obs := observerFrom(recs, int64(paramInt(rp, "next_innov")), paramInt(rp, "next_node"))
+		runChain(&st, ops, regime, obs, gsOptions(), x, orc, nil)
+	}
+	ex.OnPanic = func(x *Exec, r interface{}, stack string) { pan = r }
+	ex.RunOne(rp.Answers)
+	if pan != nil {
+		return true, fmt.Sprintf("panic: %v", pan)
+	}
+	if c.ViolationCount() > 0 {
+		return true, c.violations[0].Msg
+	}
+	return false, fmt.Sprintf("operators %v on one object starting from %s", ops, st.Short())
+}
+
 // replayOperator re-executes one recorded operator transition and applies the oracle.
 func replayOperator(prop string, oracle func(c *Ctx) func(t *gsTransition)) func(c *Ctx, rp *Replay) (bool, string) {
 	return func(c *Ctx, rp *Replay) (bool, string) {
+		if rp.Scenario == "operator-chain" {
+			return replayChain(c, rp, oracle(c))
+		}
 		var st, pt GenomeSpec
 		raw := func(k string) []byte { b, _ := json.Marshal(rp.Params[k]); return b }
 		if err := json.Unmarshal(raw("state"), &st); err != nil {
